@@ -63,7 +63,7 @@ func (e *Engine) checkFunctional(fn *ssa.Function) []string {
 				if con := e.cons.Funcs[name]; con != nil && con.Functional {
 					continue
 				}
-				if callee.Blocks == nil && purePkgs[calleePkgPath(callee)] && !impureFuncs[name] && !nondeterministic[name] {
+				if callee.Blocks == nil && purePkgs[calleePkgPath(callee)] && !isImpure(name) && !nondeterministic[name] {
 					continue
 				}
 				errs = append(errs, "functional: calls "+name)
@@ -101,7 +101,7 @@ func (e *Engine) structural(spec string) (bool, string) {
 		n := 0
 		for key, fn := range e.funcs {
 			pk := fnPackage(fn)
-			if pk == nil || pk.Name() != parts[1] || fn.Blocks == nil {
+			if pk == nil || pkgKey(pk) != parts[1] || fn.Blocks == nil {
 				continue
 			}
 			for _, b := range fn.Blocks {
@@ -153,7 +153,7 @@ func (e *Engine) structural(spec string) (bool, string) {
 		n := 0
 		for key, fn := range e.funcs {
 			pk := fnPackage(fn)
-			if pk == nil || pk.Name() != parts[1] || fn.Blocks == nil {
+			if pk == nil || pkgKey(pk) != parts[1] || fn.Blocks == nil {
 				continue
 			}
 			isInit := fn.Name() == "init" || strings.HasPrefix(fn.Name(), "init#")
